@@ -33,6 +33,13 @@ func Run() {
 	app.Version = query.Version
 	app.Authors = []*cli.Author{{Name: "Yuki et al."}}
 	app.OnUsageError = onUsageError
+	app.ExitErrHandler = func(c *cli.Context, err error) {
+		// The help command of the framework ends with an exit code of its own for an unknown topic.
+		if exitErr, ok := err.(cli.ExitCoder); ok && exitErr.ExitCode() == 3 {
+			err = cli.Exit(err.Error(), query.ReturnCodeIncorrectUsage)
+		}
+		cli.HandleExitCoder(err)
+	}
 	app.Flags = []cli.Flag{
 		&cli.StringFlag{
 			Name:    "repository",
